@@ -13,7 +13,7 @@ using namespace sim;
 enum { W_INSERT = 0, W_FOI, W_ERASE, W_FIND, W_VERIFY, W_ITER, W_GRACE, W_ANNOUNCE, R_FIND, OP_N };
 static const char *op_names[OP_N] = {"insert", "find_or_insert", "erase", "wfind", "verify_all", "iterate", "grace", "announce", "find"};
 
-static int P_case1, P_case2, P_case3, P_split_top, P_find_during_split, P_reader_found, P_reader_null, P_mustfind_checked, P_reinserts, P_erased_never_destroyed, P_skipped, P_grace_ok, P_grace_fail, P_iter, P_foi_present, P_stale_found_erased, P_lifetime_anomaly, P_plain, P_val_dtor_in_run;
+static int P_case1, P_case2, P_case3, P_split_top, P_find_during_split, P_reader_found, P_reader_null, P_mustfind_checked, P_reinserts, P_erased_never_destroyed, P_skipped, P_grace_ok, P_grace_fail, P_iter, P_foi_present, P_stale_found_erased, P_lifetime_anomaly, P_plain, P_val_dtor_in_run, P_ptrmode;
 
 struct Ins { uint64_t key, seq; char *addr; uint64_t inv, ret; uint32_t ret_wclk; uint64_t erase_inv, erase_ret; };
 struct Blk { char *p; size_t n; bool freed; };
@@ -33,7 +33,16 @@ struct RadixEngine : Engine {
 	int nreaders = 0, allocs_in_op = 0;
 	bool inflight[MAXT]; uint64_t opcount[MAXT]; bool rdone[MAXT];
 	VC gp_chan, ann_chan, rchan[MAXT];
-	bool destroyed = false, plain = false;
+	bool destroyed = false, plain = false; int vmode = 0; uint64_t nfinds = 0;
+	std::set<const char *> recs; // mode 2: the records the user stored pointers to
+	size_t vsize() const { return vmode == 2 ? sizeof(RVal *) : sizeof(RVal); }
+	// the value as the user sees it through the pointer find() returned; false: (mode 2) the slot does not hold a pointer the user stored
+	bool load_val(const char *p, RVal &v) {
+		if (vmode != 2) { user_read(p, sizeof v); memcpy(&v, p, sizeof v); return true; }
+		const char *r; user_read(p, sizeof r); memcpy(&r, p, sizeof r);
+		if (!r || !recs.count(r)) { memset(&v, 0, sizeof v); v.key = (uint64_t)(uintptr_t)r; return false; }
+		memcpy(&v, r, sizeof v); return true;
+	}
 	std::set<const char *> alive; // mode 0: value objects whose constructor has run and whose destructor has not
 	void val_ctor(void *p) { alive.insert((const char *)p); }
 	void val_dtor(void *p) { if (!destroyed) probe(P_val_dtor_in_run); alive.erase((const char *)p); }
@@ -47,7 +56,7 @@ struct RadixEngine : Engine {
 		P_reinserts = probe_id("reinsert_after_grace"); P_erased_never_destroyed = probe_id("erased_value_never_destroyed"); P_skipped = probe_id("ops_skipped_precondition");
 		P_grace_ok = probe_id("grace_period_completed"); P_grace_fail = probe_id("grace_period_gave_up"); P_iter = probe_id("iterations"); P_foi_present = probe_id("find_or_insert_on_present_key");
 		P_stale_found_erased = probe_id("relaxed_reader_found_erased_value"); P_lifetime_anomaly = probe_id("node_lifetime_anomaly(C16_radix_clause:not_claimed,not_reported)");
-		P_plain = probe_id("runs_with_argument-less_insert_of_a_plain_value_type"); P_val_dtor_in_run = probe_id("value_destructor_ran_while_the_tree_was_in_use");
+		P_plain = probe_id("runs_with_argument-less_insert_of_a_plain_value_type"); P_val_dtor_in_run = probe_id("value_destructor_ran_while_the_tree_was_in_use"); P_ptrmode = probe_id("runs_with_a_raw_pointer_value_type");
 	}
 	const char *name() override { return "simradix"; }
 	const char *op_name(int k) override { return k >= 0 && k < OP_N ? op_names[k] : "?"; }
@@ -119,6 +128,7 @@ struct RadixEngine : Engine {
 			for (int i = 0; i < n; i++) { Op o; o.task = t; o.id = i; o.kind = R_FIND; o.a[0] = key(); o.a[1] = rng.chance(1, 5); p.ops.push_back(o); }
 		}
 		if (c09 && rng.chance(1, 4)) p.knobs["plain"] = 1; // plain value type, inserted without constructor arguments
+		{ Rng vr; vr.seed(p.seed ^ 0x50545256ull); if (!p.knobs.count("plain") && vr.chance(1, 6)) p.knobs["vmode"] = 2; } // value type is a raw pointer
 		pick_strategy(rng, p, !c09);
 	}
 
@@ -129,9 +139,10 @@ struct RadixEngine : Engine {
 		for (auto &o : p.ops) if (o.kind != W_VERIFY && o.kind != W_ITER && o.kind != W_GRACE && o.kind != W_ANNOUNCE) universe.insert((uint64_t)o.a[0]);
 		for (int t = 0; t < MAXT; t++) { inflight[t] = false; opcount[t] = 0; rdone[t] = false; rchan[t].clear(); }
 		gp_chan.clear(); ann_chan.clear();
-		plain = p.knob("plain", 0) != 0 && p.ntasks == 1; alive.clear(); if (plain) probe(P_plain);
+		plain = p.knob("plain", 0) != 0 && p.ntasks == 1; alive.clear(); recs.clear(); nfinds = 0; if (plain) probe(P_plain);
+		vmode = plain ? 1 : (p.knob("vmode", 0) == 2 ? 2 : 0); if (vmode == 2) probe(P_ptrmode);
 		tree = obj_alloc(sut_tree_size(), 64);
-		sut_tree_construct(tree, plain ? 1 : 0);
+		sut_tree_construct(tree, vmode);
 	}
 
 	void *do_alloc(size_t n) {
@@ -149,18 +160,19 @@ struct RadixEngine : Engine {
 		}
 		probe(P_lifetime_anomaly);
 	}
-	bool in_node(const char *p) { for (auto &b : blks) if (!b.freed && p >= b.p && p + sizeof(RVal) <= b.p + b.n) return true; return false; }
+	bool in_node(const char *p) { for (auto &b : blks) if (!b.freed && p >= b.p && p + vsize() <= b.p + b.n) return true; return false; }
 
 	void check_value(const char *what, char *p, uint64_t k, uint64_t seq) {
 		if (!in_arena(p) || !in_node(p)) violation("map_wrong_result", "%s: returned pointer %p is not inside a node the tree allocated", what, p);
-		if (!plain && !alive.count(p)) violation("map_wrong_result", "%s(key 0x%llx): the value object at +0x%llx has been destroyed (or was never constructed)", what, (unsigned long long)k, (unsigned long long)off(p));
-		RVal v; user_read(p, sizeof v); memcpy(&v, p, sizeof v);
+		if (vmode == 0 && !alive.count(p)) violation("map_wrong_result", "%s(key 0x%llx): the value object at +0x%llx has been destroyed (or was never constructed)", what, (unsigned long long)k, (unsigned long long)off(p));
+		RVal v;
+		if (!load_val(p, v)) violation("map_wrong_result", "%s(key 0x%llx): the pointer value at +0x%llx is %p, which is not a pointer stored in the tree", what, (unsigned long long)k, (unsigned long long)off(p), (void *)(uintptr_t)v.key);
 		if (v.key != k || v.seq != seq || v.check != (~k ^ seq))
 			violation("map_wrong_result", "%s(key 0x%llx): value at +0x%llx holds {key 0x%llx, seq %llu}, expected seq %llu", what, (unsigned long long)k, (unsigned long long)off(p), (unsigned long long)v.key, (unsigned long long)v.seq, (unsigned long long)seq);
 	}
 
 	void writer_find_check(const char *what, uint64_t k) {
-		char *p = (char *)sut_find(tree, k);
+		char *p = (char *)sut_find(tree, k, (int)(nfinds++ & 1));
 		auto it = present.find(k);
 		if (it == present.end()) {
 			if (p) violation("map_wrong_result", "%s: find(0x%llx) returned +0x%llx but the key is not present", what, (unsigned long long)k, (unsigned long long)off(p));
@@ -186,12 +198,13 @@ struct RadixEngine : Engine {
 		bool top_differs = !present.empty();
 		for (auto &kv : present) if ((kv.first >> 60) == (k >> 60)) top_differs = false;
 		bool reader_inflight = false; for (int t = 2; t <= nreaders + 1; t++) reader_inflight |= inflight[t];
-		char *p;
+		char *p; char *rec = nullptr;
+		if (vmode == 2) { RVal v{k, ins[idx].seq, ~k ^ ins[idx].seq}; rec = (char *)obj_alloc(sizeof v, 8); memcpy(rec, &v, sizeof v); recs.insert(rec); }
 		if (via_foi) {
 			int inserted = -1;
-			p = (char *)sut_find_or_insert(tree, k, ins[idx].seq, &inserted);
+			p = (char *)sut_find_or_insert(tree, k, ins[idx].seq, &inserted, rec);
 			if (inserted != 1) violation("map_wrong_result", "find_or_insert(0x%llx) on an absent key reported inserted=%d", (unsigned long long)k, inserted);
-		} else p = (char *)sut_insert(tree, k, ins[idx].seq);
+		} else p = (char *)sut_insert(tree, k, ins[idx].seq, rec);
 		ins[idx].addr = p; ins[idx].ret = ++evseq; ins[idx].ret_wclk = my_clock().c[1];
 		if (allocs_in_op == 1) probe(P_case1); else if (allocs_in_op == 2) { probe(P_case2); if (top_differs) probe(P_split_top); if (reader_inflight) probe(P_find_during_split); } else probe(P_case3);
 		if (!p) violation("map_wrong_result", "insert(0x%llx) returned null", (unsigned long long)k);
@@ -240,12 +253,13 @@ struct RadixEngine : Engine {
 		uint64_t inv = ++evseq;
 		uint32_t inv_wclk = my_clock().c[1];
 		bool sc = plan().mem == MEM_SC;
-		char *p = (char *)sut_find(tree, k);
+		char *p = (char *)sut_find(tree, k, (int)(opcount[me] & 1));
 		if (p) {
 			probe(P_reader_found);
 			if (!in_arena(p) || !in_node(p)) violation("reader_bad_value", "find(0x%llx) returned %p which is not inside a node", (unsigned long long)k, p);
-			if (!plain && !alive.count(p)) violation("reader_destroyed_value", "reader %d: find(0x%llx) returned +0x%llx, a value object whose destructor has already run: not a fully initialised value", me, (unsigned long long)k, (unsigned long long)off(p));
-			RVal v; user_read(p, sizeof v); memcpy(&v, p, sizeof v);
+			if (vmode == 0 && !alive.count(p)) violation("reader_destroyed_value", "reader %d: find(0x%llx) returned +0x%llx, a value object whose destructor has already run: not a fully initialised value", me, (unsigned long long)k, (unsigned long long)off(p));
+			RVal v;
+			if (!load_val(p, v)) violation("reader_bad_value", "reader %d: find(0x%llx) returned +0x%llx, which holds the pointer %p: not a value that was stored under the key", me, (unsigned long long)k, (unsigned long long)off(p), (void *)(uintptr_t)v.key);
 			uint64_t ret = ++evseq; (void)ret;
 			if (v.key != k || v.check != (~v.key ^ v.seq) || v.seq == 0 || v.seq > ins.size() || ins[v.seq - 1].key != k)
 				violation("reader_bad_value", "reader %d: find(0x%llx) returned +0x%llx holding {key 0x%llx, seq %llu, check %s}: not a fully initialised value stored under the requested key", me, (unsigned long long)k, (unsigned long long)off(p), (unsigned long long)v.key, (unsigned long long)v.seq, v.check == (~v.key ^ v.seq) ? "ok" : "BAD");
@@ -287,7 +301,7 @@ struct RadixEngine : Engine {
 			if (present.count(k)) {
 				probe(P_foi_present);
 				int inserted = -1; Ins &I = ins[present[k]];
-				char *p = (char *)sut_find_or_insert(tree, k, 0xBAD, &inserted);
+				char *p = (char *)sut_find_or_insert(tree, k, 0xBAD, &inserted, nullptr);
 				if (inserted != 0) violation("map_duplicate_value", "find_or_insert(0x%llx) on a present key reported inserted=%d", (unsigned long long)k, inserted);
 				if (p != I.addr) violation("map_duplicate_value", "find_or_insert(0x%llx) on a present key returned +0x%llx instead of the existing value at +0x%llx", (unsigned long long)k, (unsigned long long)off(p), (unsigned long long)off(I.addr));
 				check_value("find_or_insert(present)", p, k, I.seq);
